@@ -161,6 +161,8 @@ impl Key {
         } else {
             let hash = generate_key_hash(&self.name, &self.labels);
             self.hash.store(hash, Ordering::Release);
+            #[cfg(metrics_verif)]
+            crate::__verif::point("key.get_hash.between_stores");
             self.hashed.store(true, Ordering::Release);
             hash
         }
